@@ -80,6 +80,7 @@ type c10Case struct {
 	Variants []int  `json:"variants"`
 	Comp     string `json:"comp"`
 	Kind     string `json:"kind"`
+	Body     int    `json:"body,omitempty"` // index into c10Bodies
 	FailSite string `json:"fail_site,omitempty"`
 	Arg      int    `json:"arg,omitempty"` // 0 = no failing call
 }
@@ -186,7 +187,29 @@ func (c *c10Case) sites() []string {
 	return c10Sites
 }
 
-const c10Body = `self.n = self.n + 1; return x + 100`
+// c10Bodies: what stands between the entry of a body and its return. Every
+// body of the program (default bodies, the override, the nesting function g)
+// uses the same variant; the value returned is always the same.
+var c10Bodies = []string{"plain", "closure-local", "inner-function", "closure-called", "early-return", "inner-function-with-conditions"}
+
+// c10BodyText renders a body: incr is the state change (may be empty), val the returned expression.
+func c10BodyText(variant int, incr, val string) string {
+	switch c10Bodies[variant] {
+	case "closure-local":
+		return incr + "let k = fun (_ y: Int): Int { return y }; return " + val
+	case "inner-function":
+		return incr + "fun inner(_ y: Int): Int { return y }; return " + val
+	case "closure-called":
+		return incr + "let k = fun (_ y: Int): Int { return y }; return k(" + val + ")"
+	case "early-return":
+		return incr + "if x % 2 == 1 { return " + val + " }; return " + val
+	case "inner-function-with-conditions":
+		return incr + "fun inner(_ y: Int): Int { pre { y != 50: \"pre_inner\" } post { result == y: \"post_inner\" } return y }; return inner(" + val + ")"
+	}
+	return incr + "return " + val
+}
+
+const c10Incr = "self.n = self.n + 1; "
 
 func c10Block(kw string, k int, label string, emit, post bool) string {
 	var sb strings.Builder
@@ -228,7 +251,7 @@ func (c *c10Case) script() string {
 				sb.WriteString(c10Block("post", 21+i, fmt.Sprintf("post_%d", i+1), v.Emit, true))
 			}
 			if v.Default {
-				fmt.Fprintf(&sb, "    log(\"body_%d\"); %s\n", i+1, c10Body)
+				fmt.Fprintf(&sb, "    log(\"body_%d\"); %s\n", i+1, c10BodyText(c.Body, c10Incr, "x + 100"))
 			}
 			sb.WriteString("  }\n")
 		}
@@ -244,17 +267,17 @@ func (c *c10Case) script() string {
 	sb.WriteString(" {\n  access(all) var n: Int\n  init() { self.n = 0 }\n")
 	switch c.Comp {
 	case "override":
-		fmt.Fprintf(&sb, "  access(all) fun f(_ x: Int): Int {\n    log(\"body_c\"); %s\n  }\n", c10Body)
+		fmt.Fprintf(&sb, "  access(all) fun f(_ x: Int): Int {\n    log(\"body_c\"); %s\n  }\n", c10BodyText(c.Body, c10Incr, "x + 100"))
 	case "override+conds":
 		sb.WriteString("  access(all) fun f(_ x: Int): Int {\n")
 		sb.WriteString(c10Block("pre", 30, "pre_c", true, false))
 		sb.WriteString(c10Block("post", 31, "post_c", true, true))
-		fmt.Fprintf(&sb, "    log(\"body_c\"); %s\n  }\n", c10Body)
+		fmt.Fprintf(&sb, "    log(\"body_c\"); %s\n  }\n", c10BodyText(c.Body, c10Incr, "x + 100"))
 	}
 	// nested call: g has its own conditions and its own before/result
 	sb.WriteString("  access(all) fun g(_ x: Int): Int {\n    pre { x != 40: \"pre_g\" }\n" +
 		"    post { x != 41: \"post_g\"; before(self.n) + 1 == self.n: \"before_g\"; result == x + 100: \"result_g\" }\n" +
-		"    log(\"body_g\"); return self.f(x)\n  }\n}\n")
+		"    log(\"body_g\"); " + c10BodyText(c.Body, "", "self.f(x)") + "\n  }\n}\n")
 	sb.WriteString("access(all) fun main(): [Int] {\n  let out: [Int] = []\n")
 	if c.Kind == "resource" {
 		sb.WriteString("  let c <- create C()\n")
@@ -524,14 +547,14 @@ func judgeC10(c *c10Case) (status, detail string) {
 
 // vsig is the structural class used in violation signatures: graph shape and
 // composite variant (the per-interface declaration variants are in the case).
-func (c *c10Case) vsig() string { return c.Shape + "|" + c.Comp }
+func (c *c10Case) vsig() string { return c.Shape + "|" + c.Comp + "|body:" + c10Bodies[c.Body] }
 
 func (c *c10Case) sig() string {
 	vs := make([]string, len(c.Variants))
 	for i, v := range c.Variants {
 		vs[i] = c10Variants[v].Name
 	}
-	return fmt.Sprintf("%s[%s]|%s|%s", c.Shape, strings.Join(vs, ","), c.Comp, c.Kind)
+	return fmt.Sprintf("%s[%s]|%s|%s|body:%s", c.Shape, strings.Join(vs, ","), c.Comp, c.Kind, c10Bodies[c.Body])
 }
 
 func runC10(env *mc.Env) {
@@ -556,7 +579,15 @@ func runC10(env *mc.Env) {
 					continue // no f anywhere: nothing to call
 				}
 				for _, kind := range c10Kinds {
-					progs = append(progs, &c10Case{Shape: sh.Name, Variants: vs, Comp: comp, Kind: kind})
+					// body variants: the full cross for graphs on <= 2 interfaces and in the thorough tier;
+					// in the quick tier a 3-interface program gets the plain body and one rotating variant
+					bodies := []int{0, 1, 2, 3, 4, 5}
+					if !env.Thorough() && sh.N == 3 {
+						bodies = []int{0, 1 + len(progs)%5}
+					}
+					for _, b := range bodies {
+						progs = append(progs, &c10Case{Shape: sh.Name, Variants: vs, Comp: comp, Kind: kind, Body: b})
+					}
 				}
 			}
 		}
@@ -577,7 +608,7 @@ func runC10(env *mc.Env) {
 			env.R.Violation(p.vsig()+"|"+st, p, p.sig()+": "+detail+"\n"+p.script())
 			return
 		}
-		env.R.Class(fmt.Sprintf("success/%s/%s/%d-conditions", p.Comp, p.Kind, len(m.conds)), func() any { return p.sig() })
+		env.R.Class(fmt.Sprintf("success/%s/%s/%s/%d-conditions", p.Comp, p.Kind, c10Bodies[p.Body], len(m.conds)), func() any { return p.sig() })
 		if len(m.conds) > 0 {
 			env.R.Nontrivial(p.sig())
 		}
@@ -600,7 +631,7 @@ func runC10(env *mc.Env) {
 		}
 		fails = append(fails, fail{40, "nested"}, fail{41, "nested"})
 		for _, f := range fails {
-			fc := &c10Case{Shape: p.Shape, Variants: p.Variants, Comp: p.Comp, Kind: p.Kind, FailSite: f.site, Arg: f.k}
+			fc := &c10Case{Shape: p.Shape, Variants: p.Variants, Comp: p.Comp, Kind: p.Kind, Body: p.Body, FailSite: f.site, Arg: f.k}
 			st, detail := judgeC10(fc)
 			env.R.EvalN(2)
 			if st != "ok" {
